@@ -40,7 +40,39 @@ def run(chk, replay=None):
                                                                                   ["sup:before_append", "stop:after_flip"]]))
         if i % 6 == 5: j["clock"] = "wall"; j["rtf"] = 1; j["history"] = [h[:3] + ["stop"] if len(h) > 4 else h for h in hist]
         jobs.append(j)
-    res = al.run_jobs(jobs, nproc=8, per_job_timeout=25)
+    # (3) liveness on the supported class: graphs with several blocking connections and cycles (skipped back edges), bursts and steps that expect
+    # zero messages; reset() + step()^n must return whenever the dataflow itself (the confluent actor model with rex's 10 look-ahead ticks) reaches
+    # the requested steps
+    import glob, json as _json, os as _os, copy as _copy
+    corpus = [c for f in sorted(glob.glob(_os.path.join(lib.VERIF, "corpus", "C05", "*.json"))) for c in _json.load(open(f))]
+    for ci, c in enumerate(corpus):
+        jobs.append(dict(id=f"live:corpus{ci}", cfg=c["cfg"], history=[["reset"] + ["step"] * c["cfg"]["steps"] + ["stop"]]))
+        # the neighbourhood of a corpus case: same topology and policies, other delay tables / rates
+        for v in range(3 if quick else 12):
+            rnd = random.Random(r.getrandbits(32)); cfg = _copy.deepcopy(c["cfg"])
+            scale = rnd.choice([1, 1, 2]) if all(nd["period"] % 2 == 0 for nd in cfg["nodes"].values()) else 1
+            for nd in cfg["nodes"].values():
+                nd["period"] //= scale
+                nd["delays"] = [rnd.choice([0, 1, nd["period"] // 2, nd["period"], 2 * nd["period"]]) for _ in range(rnd.choice([1, 3, 5]))]
+            for cc in cfg["conns"].values():
+                Pm = cfg["nodes"][cc["out"]]["period"]
+                cc["delays"] = rnd.choice([[rnd.choice([2, 3]) * Pm + 1, 0, 0], [rnd.randint(0, 5)], [0, rnd.randint(1, 2 * Pm)]])
+            jobs.append(dict(id=f"live:corpus{ci}v{v}", cfg=cfg, history=[["reset"] + ["step"] * cfg["steps"] + ["stop"]]))
+    nl = 16 if quick else 100
+    for i in range(nl):
+        rnd = random.Random(r.getrandbits(32))
+        cfg = al.gen_cfg(rnd, max_nodes=4)
+        if i % 2 == 0 and len(cfg["nodes"]) >= 3:
+            # slow senders blocking fast receivers: most receiver steps expect zero messages on that connection
+            names = sorted(cfg["nodes"])
+            for k, n in enumerate(names): cfg["nodes"][n]["period"] = 16 if k < len(names) // 2 else 4
+        for c in cfg["conns"].values():
+            slow_to_fast = cfg["nodes"][c["out"]]["period"] > cfg["nodes"][c["in"]]["period"]
+            if rnd.random() < (0.7 if slow_to_fast else 0.4): c["blocking"] = True
+        for nd in cfg["nodes"].values(): nd["delays"] = [min(d, 2 * nd["period"]) for d in nd["delays"]]
+        cfg["steps"] = rnd.choice([6, 8, 12])
+        jobs.append(dict(id=f"live:{i}", cfg=cfg, history=[["reset"] + ["step"] * cfg["steps"] + ["stop"]]))
+    res = al.run_jobs(jobs, nproc=10, per_job_timeout=25)
     model_cases = []; model_meta = []
     for j in jobs:
         rj = res.get(j["id"], dict(error="MISSING"))
@@ -52,6 +84,14 @@ def run(chk, replay=None):
         case = dict(cfg=j["cfg"], history=hist, gate=j.get("gate"), perturb=j.get("perturb"), clock=j.get("clock", "sim"))
         if "error" in rj:
             e = rj["error"]
+            if e.startswith("HANG") and kind == "live":
+                try: reach = al.model_reaches(j["cfg"], j["cfg"]["steps"])
+                except RecursionError: reach = None
+                if not reach:
+                    chk.feat("outside-supported-class(model-needs-more-look-ahead)"); continue
+                chk.violation("step-hangs-on-supported-graph", "reset()/step() did not return within the watchdog although the dataflow (actor model with 10 look-ahead "
+                              "ticks per node, any schedule) reaches the requested supervisor steps: the threaded runtime stops making progress", case)
+                continue
             if e.startswith("HANG"):
                 sig = "stop-after-run-hangs" if any("run" in h for h in hist) else "lifecycle-call-hangs"
                 chk.violation(sig, f"lifecycle call did not return within the watchdog ({'forced lost-wake-up order' if kind == 'gate' else 'free schedule'}); "
